@@ -240,6 +240,13 @@ def run(chk):
                 if r and r[0] == "range":
                     rng = (r[1].exact(), r[2].exact())
         chk.ob("R5 request framing", "R5|length-field", len(be) == 1 and rng == (3, 7), where(rq), "declared length = u32::from_be_bytes(value[%s..%s])" % (rng or ("?", "?")))
+        # the shortest frame that gets past the length guard is the bare 7-byte header (a request without data, e.g. VERSION)
+        lo = None
+        if be:
+            st = iv.at(be[0][0], "t")
+            if st is not None:
+                lo = iv.len_operand(st, {"k": "copy", "place": {"l": 1, "p": [], "s": "_1"}}).lo
+        chk.ob("R5 request framing", "R5|shortest-frame", lo == 7, where(rq), "frames reaching the length field are at least %s bytes long (header 6 + LC 1 = 7)" % lo)
         # cla / ins / p1 positions: constant indexes 0,1,2
         idx = sorted({e["offset"] if e["k"] == "cindex" else None for bb, s in rq.stmts() if s["k"] == "assign" for pj in [s["rv"].get("op", {}).get("place") if isinstance(s["rv"].get("op"), dict) else None] if pj for e in pj["p"] if e["k"] == "cindex"} - {None})
         idxs = set()
